@@ -7,8 +7,8 @@ in lockstep on
 
   * the REAL storage (FileStorage, MappingStorage, DemoStorage(base=MappingStorage)),
   * the direct oracle  (c04_oracle.History: a plain list of transactions, independent of the model),
-  * and — FileStorage only — the Lean model through Drivers/FileStore.lean (one driver process per
-    worker, `reset` between cases).
+  * and the Lean models of FileStorage and MappingStorage through Drivers/FileStore.lean (one driver
+    process per worker, `reset` / `m.reset` between cases).
 
 After every transaction all query APIs are compared ([P]); `_pos`, `_ltid` and the oid index are
 compared with the model only ([I]).  real != oracle -> shrink -> violation; real == oracle but
@@ -285,7 +285,10 @@ class RealBase:
         return self.ext_table.get(ext_key(d), ('?' + ext_key(d)).encode())
 
     def lastTransaction(self):
-        return u64(self.st.lastTransaction())
+        try:
+            return u64(self.st.lastTransaction())
+        except Exception:  # noqa: BLE001
+            return MAXTID
 
     def load(self, o):
         def f():
@@ -388,16 +391,20 @@ class RealFS(RealBase):
         return guard(lambda: self.st.tpc_abort(self.txn) and 'ok' or 'ok')
 
     def reopen(self, mode):
-        self.st.close()
-        if mode == 'drop' and os.path.exists(self.path + '.index'):
-            os.remove(self.path + '.index')
-        self.st = self.FileStorage(self.path)
-        return 'ok'
+        def f():
+            self.st.close()
+            if mode == 'drop' and os.path.exists(self.path + '.index'):
+                os.remove(self.path + '.index')
+            self.st = self.FileStorage(self.path)
+            return 'ok'
+        return guard(f)
 
     def state(self):
-        ix = sorted((u64(k), v) for k, v in self.st._index.items())
-        return 'pos=%d ltid=%s index=[%s]' % (self.st._pos, hx(u64(self.st._ltid)),
-                                              ','.join('%s:%d' % (hx(k), v) for k, v in ix))
+        def f():
+            ix = sorted((u64(k), v) for k, v in self.st._index.items())
+            return 'pos=%d ltid=%s index=[%s]' % (self.st._pos, hx(u64(self.st._ltid)),
+                                                  ','.join('%s:%d' % (hx(k), v) for k, v in ix))
+        return guard(f)
 
     # -- queries special to FileStorage
     def history(self, o, n):
@@ -572,7 +579,7 @@ def execute(case, tmp, full_every=False):
     rq = random.Random(case.get('qseed', 0))
     touched = set()
     try:
-        run.add('reset', 'ok', 'ok')
+        run.add({'fs': 'reset', 'map': 'm.reset'}.get(kind), 'ok', 'ok')
         txns = case['txns']
         base_n = case.get('base_n', 0) if kind == 'demo' else 0
         if kind == 'demo' and base_n == 0:
@@ -609,7 +616,8 @@ def _queries(kind, real, h, api, run, rq, full, touched):
     q = query_args(h, rq, full, touched)
     rs = qall_segments(real, q, kind)
     os_ = qall_segments(api, q, kind)
-    run.add(qall_line(q) if kind == 'fs' else None, ' | '.join(rs), ' | '.join(os_))
+    run.add(qall_line(q) if kind == 'fs' else ('m.' + qall_line(q)) if kind == 'map' else None,
+            ' | '.join(rs), ' | '.join(os_))
     run.count('queries', len(rs))
 
 
@@ -624,16 +632,18 @@ def _run_txn(kind, txn, real, h, run, touched):
         tid = min(tid, MAXTID - 2)
         robs = real.begin(tid, None, status, u, d, e)
         line = 'begin t:%s %d %s %s %s' % (hx(tid), ord(status), tok(u), tok(d), tok(e))
+        mline = 'm.begin t:%s %s %s %s' % (hx(tid), tok(u), tok(d), tok(e))
         run.count('begin:explicit')
     else:
         now = txn['tid'][1]
         robs = real.begin(None, now, status, u, d, e)
         line = 'begin n:%s %d %s %s %s' % (hx(now_raw(now)), ord(status), tok(u), tok(d), tok(e))
+        mline = 'm.begin n:%s %s %s %s' % (hx(now_raw(now)), tok(u), tok(d), tok(e))
         run.count('begin:clock')
     rtid = int(robs.split('tid=')[1], 16)
     toolong = kind == 'fs' and max(len(u), len(d), len(e)) > 65535
     oobs = ('err:FileStorageError' if toolong else 'ok') + ' tid=' + hx(rtid)
-    run.add(line if kind == 'fs' else None, robs, oobs)
+    run.add(line if kind == 'fs' else mline if kind == 'map' else None, robs, oobs)
     run.count('meta-len:%d' % max(len(u), len(d), len(e)) if max(len(u), len(d), len(e)) in (0, 1, 65535, 65536)
               else 'meta-len:other')
     h.begin(rtid, status, u, d, e)
@@ -649,12 +659,12 @@ def _run_txn(kind, txn, real, h, run, touched):
         robs = real.finish()
         # the property: transaction ids strictly increase in commit order
         good = robs.startswith('ok tid=') and int(robs.split('tid=')[1], 16) == rtid and rtid > h.ltid()
-        run.add('finish' if kind == 'fs' else None, robs,
+        run.add({'fs': 'finish', 'map': 'm.finish'}.get(kind), robs,
                 robs if good else 'ok tid=<above %s>' % hx(h.ltid()))
         h.finish()
         run.count('commit')
         return False
-    run.add('abort' if kind == 'fs' else None, real.abort(), 'ok')
+    run.add({'fs': 'abort', 'map': 'm.abort'}.get(kind), real.abort(), 'ok')
     h.abort()
     run.count('abort')
     return True
@@ -672,7 +682,8 @@ def _run_op(kind, op, real, h, run, tid, touched):
         if kind == 'demo' and smode != 'cur':
             serial = cur            # DemoStorage resolves against load_current: keep it conflict free
         robs = real.store(oid, serial, data)
-        run.add('store %s %s %s' % (hx(oid), hx(serial), tok(data)) if model else None, robs,
+        run.add('store %s %s %s' % (hx(oid), hx(serial), tok(data)) if model else
+                'm.store %s %s %s' % (hx(oid), hx(serial), tok(data)) if kind == 'map' else None, robs,
                 h.store(oid, serial, data))
         run.count('op:store')
         if len(data) > 65536:
@@ -997,15 +1008,17 @@ def work(args):
     res = dict(cases=[], violations=[], mismatches=[], counts={}, infra=None)
     runs = []
     os.makedirs(tmp, exist_ok=True)
+    timeout = CASE_TIMEOUT
     for case in cases:
         try:
-            run, sig, d = judge(case, tmp, CASE_TIMEOUT, full_every)
+            run, sig, d = judge(case, tmp, timeout, full_every)
         except Exception as e:  # noqa: BLE001
             import traceback
             res['infra'] = 'executing a case failed: %r\n%s\ncase=%s' % (
                 e, traceback.format_exc()[-1500:], json.dumps(case)[:3000])
             return res
         if run is None:       # the real storage hung: a violation in its own right
+            timeout = SHRINK_TIMEOUT          # do not wait that long again in this worker
             res['cases'].append((case, False, None))
             res['counts']['violation:' + sig] = res['counts'].get('violation:' + sig, 0) + 1
             if sum(1 for v in res['violations'] if v[0] == sig) < 1:
